@@ -32,7 +32,7 @@ ASSUMPTIONS = ['the planted truth comes from the harness\'s own exact piecewise-
                'degenerate plantings are discarded by the reference, not failed']
 PROBES = ['planted_av_at_range_end', 'planted_distance_at_range_end', 'planted_distance_interior', 'aperture_clamped', 'flag4_point', 'limit_band',
           'garbage_band', 'filter_desc_order', 'filter_partial_overlap', 'convolve_crash_rerun', 'fit_crash_restart', 'degenerate_discarded',
-          'singular_discarded', 'apdep', 'free_scale', 'params_row_checked', 'prelude_epoch']
+          'singular_discarded', 'apdep', 'free_scale', 'params_row_checked', 'prelude_epoch', 'object_route', 'intruder_fit']
 
 
 def budgets(tier):
@@ -66,6 +66,10 @@ def generate(rng, tier, idx):
              'lim_conf': [rng.choice([0.0, 0.5, 0.9, 1.0]) for _ in range(nf)], 'g': [rng.choice([-999.0, 0.0, 1e-30, 12345.6, -3.0]) for _ in range(nf)]}
         plants.append(p)
     sc['plants'] = plants
+    # the same planting through the object interface, the listing made from result objects that were never pickled,
+    # optionally after another user fitted against another package in the same process
+    sc['object_route'] = rng.random() < 0.5
+    sc['intruder'] = rng.random() < 0.4
     if rng.random() < 0.3:
         from ..author import prelude_spec
         sc['prelude'] = {'world': prelude_spec(w, rng), 'seed': rng.randrange(1 << 30)}
@@ -327,12 +331,60 @@ def _execute(sc, sim, out):
                     break
         except Exception as e:
             out.violate('parameter-row', 'write_parameters output cannot be parsed: %s: %s' % (type(e).__name__, e))
-    out.trace = trace + [tuple((t['av_pick'], t['d_pick'], t['n_fit'], tuple(t['kinds'])) for t in truth_info)]
+    if not out.violations and sc.get('object_route'):
+        from ..author import prelude_spec
+        rf = pipe.call(pipe.Fitter, names, ap, d, extinction_law=W.extinction(), av_range=list(sc['av_range']),
+                       distance_range=list(sc['drange']) * pipe.u.kpc)
+        infos = []
+        if rf[0] == 'ok':
+            for ln in lines:
+                ri = pipe.call(rf[1].fit, pipe.Source.from_ascii(ln))
+                if ri[0] != 'ok':
+                    break
+                infos.append(ri[1])
+        if len(infos) != len(lines):
+            out.violate('stage-failed', 'object interface could not fit the planted sources', key='object-route')
+        else:
+            out.probe('object_route')
+            if sc.get('intruder'):
+                Wi = World(prelude_spec(spec, random.Random(sc['theta_seed'] + 7)))
+                di = Wi.write(sim.path('other_pkg'))
+                if pipe.call(pipe.convolve_model_dir, di, Wi.filters())[0] == 'ok':
+                    ri = pipe.call(pipe.Fitter, names, ap, di, extinction_law=Wi.extinction(), av_range=list(sc['av_range']),
+                                   distance_range=list(sc['drange']) * pipe.u.kpc)
+                    if ri[0] == 'ok':
+                        pipe.call(ri[1].fit, pipe.Source.from_ascii(lines[0]))
+                        out.probe('intruder_fit')
+                        sim.fired('intruder_fit')
+            r = pipe.call(write_parameters, infos, outp + '.obj.txt')
+            if r[0] != 'ok':
+                out.violate('stage-failed', 'write_parameters on result objects raised %s: %s' % (pipe.exc_name(r), r[1]), key='write_parameters-objects/%s' % pipe.exc_name(r))
+            else:
+                txt2 = env.real_open(outp + '.obj.txt').read().splitlines()[3:]
+                try:
+                    for ti, t in enumerate(truth_info):
+                        hd = txt2[2 * ti].split()
+                        row = txt2[2 * ti + 1].split()
+                        want = W.names[t['m']]
+                        out.compared('parameter-row-objects')
+                        ok = hd[0] == t['name'] and row[1] == want and len(row) == 5 + len(W.par_names)
+                        for ci, c in enumerate(W.par_names):
+                            x = float(W.pars[c][t['m']])
+                            ok = ok and abs(float(row[5 + ci]) - x) <= 6e-4 * abs(x)
+                        if not ok:
+                            out.violate('parameter-row', 'source %s (results passed as objects%s): write_parameters prints %s, the planted model %s has parameters %s' % (
+                                t['name'], ', another package fitted in between' if sc.get('intruder') else '', row, want, [float(W.pars[c][t['m']]) for c in W.par_names]), key='objects')
+                            break
+                except Exception as e:
+                    out.violate('parameter-row', 'write_parameters output (objects) cannot be parsed: %s: %s' % (type(e).__name__, e), key='objects')
+    out.trace = trace + [tuple((t['av_pick'], t['d_pick'], t['n_fit'], tuple(t['kinds'])) for t in truth_info), bool(sc.get('object_route')), bool(sc.get('intruder'))]
 
 
 def lowerings(sc, viol=None):
     if sc.get('prelude'):
         yield dict(sc, prelude=None)
+    if sc.get('intruder'):
+        yield dict(sc, intruder=False)
     if sc['conv_crash'] is not None:
         yield dict(sc, conv_crash=None)
     if sc['fit_crash'] is not None:
